@@ -4,7 +4,8 @@ spec : SqliteModel.tla row semantics (Survives / Rewritten), EngineTrace.tla (Ro
        columns is unchanged, NULLs of a column that becomes NOT NULL take the default; tables outside the change set are untouched)
 bind : S->C. The C01 pairs on populated databases (3 rows per table, distinct values per column, NULLs in nullable columns, valid foreign
        keys); rows are read by the harness before and after with quote(); TLC evaluates RowsOK on every observation. In-place ALTER and the
-       rebuild path are both forced by the edit mix.
+       rebuild path are both forced by the edit mix. Changes that cannot be carried out on a populated table (a rebuild together with a new
+       NOT NULL column without default, SqliteModel.Inadmissible) go through the real CLI: refused, schema and rows as before.
 """
 from checks import engine
 import vf
@@ -14,14 +15,24 @@ NAMES = {"RowsNotPreserved"}
 
 def run(tier):
     v = vf.Verdict("C05", tier, "exploration")
-    viols, full, n, info = engine.run_engine(tier)
+    viols, full, n, info = engine.run_engine(tier, cli_every=150 if tier == "quick" else 20)
     bad = engine.report(v, viols, full, NAMES)
+    # the CLI slice: sampled pairs and every inadmissible change (SqliteModel.Inadmissible) inside the CLI's transaction
+    cviols, cfull = info.pop("cli", ([], []))
+    for i, name in cviols:
+        if name in NAMES | {"InadmissibleChangeAccepted", "RefusalNotClean"}:
+            o = cfull[i - 1]
+            case = engine.case_of(o, name)
+            case["part"] = "cli"
+            case["mustrefuse"] = bool(o.get("mustrefuse"))
+            v.violation(case, engine.detail_of(o))
+    nrefuse = sum(1 for o in cfull if o.get("mustrefuse") and not o["skipped"])
     rebuilt = sum(1 for o in full if any("INSERT INTO `new_" in s for s in (o.get("stmts") or [])))
     inplace = sum(1 for o in full if o.get("stmts") and not any("INSERT INTO `new_" in s for s in o["stmts"]))
     distinct = len({engine.case_of(o, "")["edit_fields"] + "|" + json_key(o) for o in full})
     v.cov = {"evaluations": n, "distinct_nontrivial": distinct, "rule": "one evaluation = one (populated current, desired) pair from SqliteModel.tla executed on a real SQLite file; "
              "distinct by (from, to) state pair; non-trivial = the plan is non-empty", "plans_with_table_rebuild": rebuilt, "plans_in_place": inplace,
-             "skipped_by_engine": info["skipped"]}
+             "skipped_by_engine": info["skipped"], "cli_pairs": len(cfull), "inadmissible_changes_through_cli": nrefuse}
     v.samples = [{"edit": engine.diffstate(o["from"], o["to"]), "rows_before": o["rows_before"], "rows_after": o["rows_after"], "statements": o.get("stmts")}
                  for o in full if any("INSERT INTO `new_" in s for s in (o.get("stmts") or []))][:1]
     v.assumptions = ["values are compared through SQLite's quote(); a column survives iff it is stored (not generated), present before and after, with the same type",
